@@ -18,7 +18,10 @@ use std::time::Duration;
 /// index of the caller that can replace its image (present with the default helper set)
 pub const CHAMELEON: u8 = 7;
 pub const HELPER_NAMES: &[&str] = &["curl", "python3", "waagent", "Curl", "cur"];
-pub const UIDS: &[u64] = &[0, 1001, 1002, 1003, 1004];
+/// the first five are the identities every strategy uses (1004 has no passwd entry); the others are ids without a passwd entry
+/// that have a meaning somewhere else (the well-known Windows logon-session ids 0x3e4..0x3e9 named in proxy/windows.rs, 65533 (65534 is left out: the name service of this image synthesises "nobody" for it),
+/// the largest uid): on Linux they are ordinary unprivileged users
+pub const UIDS: &[u64] = &[0, 1001, 1002, 1003, 1004, 0x3e4, 0x3e5, 0x3e6, 0x3e7, 0x3e8, 65533, 4294967295, 1];
 /// users with multi-byte names (C13 only)
 pub const WIDE_UIDS: &[u64] = &[1005, 1006];
 
@@ -117,6 +120,8 @@ impl Rig {
         mock.listen("other", "10.99.0.1:8080")?;
         mock.listen("nearmiss", "168.63.129.16:81")?;
         verif_hooks::activate();
+        // configuration dimension: the log level the service would take from its config file (set once per process)
+        crate::runner::configure_log_level();
         let rt = tokio::runtime::Builder::new_multi_thread().worker_threads(3).enable_all().thread_name("agent-rt").build().map_err(|e| e.to_string())?;
         let shared = rt.block_on(async { SharedState::start_all() });
         let proxy = ProxyServer::new(3080, &shared);
